@@ -58,7 +58,9 @@ def tla_seed(d):
         "[id |-> %s, ownerobj |-> %d, cont |-> %s, base |-> %s, ind |-> %s, cls |-> %s]"
         % (tla_str(s["id"]), s["ownerobj"], tla_str(s["cont"]), tla_str(s["base"]), "TRUE" if s["ind"] else "FALSE",
            tla_str(s["cls"])) for s in d["sites"])
-    streams = ", ".join("[id |-> %s, plen |-> %d]" % (tla_str(t["id"]), t["plen"]) for t in d["streams"])
+    streams = ", ".join("[id |-> %s, plen |-> %d, hdr |-> %d, fields |-> {%s}]"
+                        % (tla_str(t["id"]), t["plen"], t["hdr"], ", ".join("<<%d, %d>>" % tuple(fl) for fl in t["fields"]))
+                        for t in d["streams"])
     ents = ", ".join("[id |-> %s, form |-> %s]" % (tla_str(e["id"]), tla_str(e["form"])) for e in d["ents"])
     return "[sites |-> {\n    %s},\n   streams |-> {%s},\n   ents |-> {%s},\n   flen |-> %d, enc |-> %s]" % (
         sites, streams, ents, d["flen"], "TRUE" if d["enc"] else "FALSE")
@@ -109,6 +111,7 @@ def sample_faults(faults, seed, descs):
     base = {d["name"]: {x["id"]: x["base"] for x in d["sites"]} for d in descs}
     groups = collections.OrderedDict()
     out = []
+    hdr = {d["name"]: {t["id"]: t["hdr"] for t in d["streams"]} for d in descs}
     # important entries: per seed, key and kind of owner (object / object stream / xref stream / trailer - different
     # code reads them) the first IMPORTANT_SITES_PER_ROLE site(s) in file order get the full treatment
     important = set()
@@ -137,6 +140,10 @@ def sample_faults(faults, seed, descs):
         if fd["kind"] == "retype" and (s, fd["site"]) in important:
             # structurally important entries: every retype representative (empty and non-empty array / dictionary /
             # string, scalars, each also behind a reference) is applied in every quick run
+            out.append((s, fd))
+            continue
+        if fd["cls"] == "payload" and (fd["kind"] == "setfield" or (fd["kind"] == "truncate" and fd["pos"] < hdr[s].get(fd["site"], 0))):
+            # embedded font programs: every cut inside the binary header / table directory, every header field value
             out.append((s, fd))
             continue
         if fd["kind"].startswith("off_"):
